@@ -265,7 +265,15 @@ def _bkg_ref(cfg, dseed, name):
     return _memo(('bkg', _ck(cfg), dseed, name), make)
 
 
+_BKG_SRC = {'background': 'background_mesh', 'background_median': 'background_mesh',
+            'background_mesh_masked': 'background_mesh', 'background_rms': 'background_rms_mesh',
+            'background_rms_median': 'background_rms_mesh',
+            'background_rms_mesh_masked': 'background_rms_mesh', 'npixels_map': 'npixels_mesh',
+            'mesh_nmasked': 'npixels_mesh'}
+
+
 def eval_bkg(case):
+    """One failure per history: the first read that raises / differs (key = the mesh it derives from)."""
     cfg, seq, dseed = case['cfg'], case['seq'], case['dseed']
     fails = []
     obj = _bkg_new(cfg, dseed)
@@ -276,26 +284,29 @@ def eval_bkg(case):
             val = getattr(obj, name)
         except Exception as e:  # noqa: BLE001
             if kind != 'exc':       # (a fresh object raising as well is not a history effect)
-                fails.append((f'background2d/read-order-raises/{name}',
+                fails.append((f'background2d/read-order-raises/{_BKG_SRC.get(name, name)}',
                               f'Background2D({cfg}).{name} after reading {list(seq[:i])} raises {_exc(e)}'))
+                return fails
             continue
         if kind == 'exc':
-            fails.append((f'background2d/read-order/{name}',
+            fails.append((f'background2d/read-order/{_BKG_SRC.get(name, name)}',
                           f'Background2D({cfg}).{name} after reading {list(seq[:i])} returns a value; a fresh '
                           f'object raises {ref}'))
-            continue
+            return fails
         r = cmp(val, ref, 0.0, name)
         if r:
-            fails.append((f'background2d/read-order/{name}',
+            fails.append((f'background2d/read-order/{_BKG_SRC.get(name, name)}',
                           f'Background2D({cfg}).{name} after reading {list(seq[:i])} differs from a fresh '
                           f'object: {r}'))
+            return fails
         got.append((name, val))
     for name, val in got:
         r = cmp(val, _bkg_ref(cfg, dseed, name)[1], 0.0, name)
         if r:
-            fails.append((f'background2d/earlier-result-mutated/{name}',
+            fails.append((f'background2d/earlier-result-mutated/{_BKG_SRC.get(name, name)}',
                           f'Background2D({cfg}): the array returned by .{name} was changed by later reads '
                           f'{list(seq)}: {r}'))
+            break
     return fails
 
 
@@ -820,6 +831,13 @@ def eval_psf(case):
             fails.append((f'{cls}/call-history/result',
                           f'{cls}({cfg}) call {name!r} after {hist} returns; a fresh object raises {ref}'))
             continue
+        inner = obj._psfphot if cfg.get('iter') else obj  # noqa: SLF001
+        if inner.grouper is not held['grouper'] or inner.localbkg_estimator is not held['lbkg'] \
+                or inner.finder is not held['finder']:
+            fails.append((f'{cls}/configuration-rebound',
+                          f'{cls}({cfg}) after calls {seq[:i + 1]}: grouper/localbkg_estimator/finder attribute '
+                          'no longer the constructor argument'))
+            return fails
         obs = _psf_observe(obj, res, req, cfg)
         for k in ref:
             r = cmp(obs.get(k), ref[k], TOL, k)
@@ -827,12 +845,7 @@ def eval_psf(case):
                 kk = k.split('[')[0]
                 fails.append((f'{cls}/call-history/{kk}',
                               f'{cls}({cfg}) call {name!r} after {hist}: {k} differs from a fresh object: {r}'))
-        inner = obj._psfphot if cfg.get('iter') else obj  # noqa: SLF001
-        if inner.grouper is not held['grouper'] or inner.localbkg_estimator is not held['lbkg'] \
-                or inner.finder is not held['finder']:
-            fails.append((f'{cls}/configuration-rebound',
-                          f'{cls}({cfg}) after calls {seq[:i + 1]}: grouper/localbkg_estimator/finder attribute '
-                          'no longer the constructor argument'))
+                return fails      # one failure per history: the first differing observable
     return fails
 
 
